@@ -1116,6 +1116,15 @@ int module_load(
 
   uint64_t parse_result = ERROR_SUCCESS;
 
+  // Allocated once, not per memory block: only one block is ever parsed (the
+  // loop ends after it), and allocating inside the loop leaked one ELF
+  // structure for every block visited before it.
+  ELF* elf = (ELF*) yr_calloc(1, sizeof(ELF));
+  if (elf == NULL)
+    return ERROR_INSUFFICIENT_MEMORY;
+
+  module_object->data = elf;
+
   foreach_memory_block(iterator, block)
   {
     const uint8_t* block_data = yr_fetch_block_data(block);
@@ -1123,11 +1132,6 @@ int module_load(
     if (block_data == NULL)
       continue;
 
-    ELF* elf = (ELF*) yr_calloc(1, sizeof(ELF));
-    if (elf == NULL)
-      return ERROR_INSUFFICIENT_MEMORY;
-
-    module_object->data = elf;
     int class_data = get_elf_class_data(block_data, block->size);
 
     if (class_data == CLASS_DATA(ELF_CLASS_32, ELF_DATA_2LSB) &&
